@@ -426,6 +426,86 @@ def run_future_deque(args):
     return out
 
 
+def run_region_cached(args):
+    """C13 slice: RegionCached write / regional initialisation protocol (from MIR)."""
+    from mirproto import region_cached_model as RC
+    t0 = time.time()
+    nreg, ini, progs = json.loads(args.programs)
+    out = dict(scenario=RC.prog_name((nreg, ini, progs)), prop=args.prop, verdict=None, queries=[])
+    try:
+        funcs, cfg, find, init = RC.load(args.mir, REPO, nreg)
+        threads, k, kinds = RC.build_scenario(cfg, find, progs)
+    except A.Unsupported as e:
+        out.update(verdict="unsupported", detail=str(e))
+        return out
+    if args.cmd == "automata":
+        for t, th in enumerate(threads):
+            print("thread", t, "entry", th["entry"], "k", k)
+            for nid, n in th["nodes"].items():
+                print("  ", nid, {a: b for a, b in n["op"].items() if a not in ("next_bb", "dst", "argvals", "result_value")}, "->", n["succ"])
+        return out
+    out["k_longest_path"] = k
+    k = min(k, args.kcap)
+    if args.k:
+        k = args.k
+    for th in threads:
+        if th["entry"] == "END":
+            th["entry"] = E.END
+    locs = ["gen", "latest"] + ["reg%d" % r for r in range(nreg)]
+    iv = dict(gen=init["gen"], latest=init["latest"])
+    for r in range(nreg):
+        iv["reg%d" % r] = RC.NONE if ini[r] == "none" else 2 + init["latest"]
+    flat = [kk for th in kinds for kk in th]
+    enc = E.Encoder(threads, k, cells=(), locs=locs, nops=len(flat), init_vals=iv)
+    enc.build()
+    out.update(k=k, nodes=[len(th["nodes"]) for th in threads], assertions=enc.n_assert, init=init,
+               functions=sorted({"%s:%s" % ((n["op"].get("line") or ("-", 0))[0], n["op"]["kind"]) for th in threads for n in th["nodes"].values()}))
+    F = enc.final()
+    done = enc.done()
+    v = {}
+    v["panic / unreachable arm or a value outside the modelled range"] = F.bad != E.N(0)
+    v["persistent staleness: all writes and reads have finished, yet a region serves a generation that is not the latest written (or is stuck initialising)"] = z3.Or(
+        *[z3.And(F.curL["reg%d" % r] != E.BV8(RC.NONE), F.curL["reg%d" % r] != E.BV8(2) + F.curL["latest"]) for r in range(nreg)])
+    writers = [t for t, th in enumerate(kinds) if any(kk[0] == "set" for kk in th)]
+    base = 0
+    own, order = [], []
+    for t, th in enumerate(kinds):
+        for i, kk in enumerate(th):
+            if kk[0] == "read" and i > 0 and th[i - 1][0] == "set" and writers == [t]:
+                own.append(F.res[base + i] != F.res[base + i - 1])
+            if kk[0] == "read" and len(writers) == 1:
+                for j in range(i):
+                    if th[j][0] == "read" and th[j][1] == kk[1]:
+                        order.append(z3.ULT(F.res[base + i], F.res[base + j]))
+        base += len(th)
+    if own:
+        v["a pinned thread did not observe its own write although nobody else wrote"] = z3.Or(*own)
+    if order:
+        v["a reader observed the single writer's values out of order"] = z3.Or(*order)
+    tq = time.time()
+    r, m = enc.check(done, timeout_s=args.timeout)
+    out["queries"].append(dict(q="witness: a complete run exists", result=str(r), s=round(time.time() - tq, 2)))
+    if r != z3.sat:
+        out.update(verdict="vacuous" if r == z3.unsat else "timeout", detail="no complete run within k=%d" % k)
+        return out
+    tq = time.time()
+    r, m = enc.check(done, z3.Or(*v.values()), timeout_s=args.timeout)
+    out["queries"].append(dict(q="violation of %s at quiescence" % args.prop, result=str(r), s=round(time.time() - tq, 2)))
+    if r == z3.unknown:
+        out.update(verdict="timeout", detail="solver gave up (%ss)" % args.timeout)
+    elif r == z3.unsat:
+        out.update(verdict="holds")
+    else:
+        ev = lambda x: m.eval(x, model_completion=True)
+        labels = [lab for lab, e in v.items() if z3.is_true(ev(e))]
+        fin = dict(bad=ev(F.bad).as_long(), latest_generation=ev(F.curL["latest"]).as_long(), next_generation=ev(F.curL["gen"]).as_long(),
+                   regions=[ev(F.curL["reg%d" % r]).as_long() for r in range(nreg)],
+                   ops=[dict(kind=list(flat[o]), generation=ev(F.res[o]).as_long(), done=ev(F.status[o]).as_long() == 2) for o in range(len(flat))])
+        out.update(verdict="violation", labels=labels, trace=enc.trace(m), final=fin)
+    out["wall_s"] = round(time.time() - t0, 2)
+    return out
+
+
 def main():
     ap = argparse.ArgumentParser()
     ap.add_argument("cmd", choices=["scenario", "fingerprint", "automata"])
@@ -457,6 +537,14 @@ def main():
         return
     if args.cmd == "scenario" and args.model in ("events_auto", "events_manual"):
         print(json.dumps(run_events(args)))
+        return
+    if args.model == "region_cached":
+        if args.cmd == "fingerprint":
+            print(json.dumps({"region_cached": "interpreted-from-mir"}))
+            return
+        r_ = run_region_cached(args)
+        if args.cmd == "scenario":
+            print(json.dumps(r_))
         return
     if args.model == "future_deque":
         if args.cmd == "fingerprint":
